@@ -230,6 +230,71 @@ def wsgi_short_input_case(kind, chunks, cut):
         len(data), len(sent), got[:30])]
 
 
+def replay_stream(inputs):
+    """replay of a solver counterexample for Request.stream on a fresh request: the chunks yielded concatenate to the body
+    (raw bytes: no content type involved), none of them is empty except the final marker of the ASGI side, and a second
+    stream() raises RuntimeError"""
+    import asyncio
+    import io
+    v = []
+    if inputs["iface"] == "wsgi":
+        from baize.wsgi import Request
+        body = inputs["body"].encode("latin-1")
+        env = {"REQUEST_METHOD": "POST", "wsgi.input": io.BytesIO(body), "CONTENT_LENGTH": str(len(body)), "wsgi.url_scheme": "http",
+               "SERVER_NAME": "s", "SERVER_PORT": "80", "PATH_INFO": "/", "QUERY_STRING": ""}
+        req = Request(env)
+        try:
+            got = list(req.stream(max(1, int(inputs.get("chunk_size", 3)))))
+        except Exception as e:  # noqa
+            return {"violated": ["stream raised %r" % e]}
+        if b"".join(got) != body:
+            v.append("stream yielded %r for the body %r" % (got, body))
+        try:
+            list(req.stream())
+            v.append("second stream() did not raise")
+        except RuntimeError:
+            pass
+        return {"violated": v}
+    from baize.asgi import Request
+    msgs = [{"type": m[0], "body": m[1].encode("latin-1"), "more_body": bool(m[2])} if m[0] == "http.request" else {"type": m[0]}
+            for m in inputs["msgs"]]
+    want = b"".join(m.get("body", b"") for m in msgs if m["type"] == "http.request")
+    disconnects = any(m["type"] == "http.disconnect" for m in msgs)
+
+    async def go():
+        script = list(msgs)
+
+        async def receive():
+            if script:
+                return script.pop(0)
+            await asyncio.sleep(3600)
+        req = Request({"type": "http", "method": "POST", "headers": [], "path": "/", "query_string": b""}, receive)
+        got = []
+        try:
+            async for c in req.stream():
+                got.append(c)
+        except Exception as e:  # noqa
+            if disconnects and type(e).__name__ == "ClientDisconnect":
+                return
+            v.append("stream raised %r" % e)
+            return
+        if disconnects:
+            v.append("a disconnect in the script did not raise ClientDisconnect")
+        if b"".join(got) != want:
+            v.append("stream yielded %r for the messages %r" % (got, msgs))
+        try:
+            async for _ in req.stream():
+                pass
+            v.append("second stream() did not raise")
+        except RuntimeError:
+            pass
+    try:
+        asyncio.run(asyncio.wait_for(go(), 20))
+    except asyncio.TimeoutError:
+        v.append("stream did not finish on a complete script")
+    return {"violated": v}
+
+
 def replay(inputs):
     if inputs.get("wsgi_short_input"):
         return {"violated": wsgi_short_input_case(inputs["kind"], [c.encode("latin-1") for c in inputs["chunks"]], inputs["cut"])}
